@@ -6,6 +6,7 @@ import FeatModel.Lemmas.C02Clone
 import FeatModel.Lemmas.C02Cscr
 import FeatModel.Lemmas.C02Banded
 import FeatModel.Lemmas.C02ChainSpec
+import FeatModel.Lemmas.C02Alias
 /-!
 # C02 — conversion, cloning, transposition and permutation preserve the matrix (property theorems)
 
@@ -193,6 +194,35 @@ theorem C02.chain_spec {α : Type} [Zero α] [Add α] (h0 : (0 : α) + 0 = 0) (o
     m'.rows = (semRun ops ⟨m.rows, m.cols, m.entry⟩).rows ∧ m'.cols = (semRun ops ⟨m.rows, m.cols, m.entry⟩).cols ∧
     ∀ i j, i < m'.rows → j < m'.cols → m'.entry i j = (semRun ops ⟨m.rows, m.cols, m.entry⟩).f i j :=
   C02L.chain_spec h0 ops m m' hv hok hrun
+
+/-! ### aliased and pre-existing targets (`target.transpose(source)`, `convert`, `clone`, `copy`) -/
+
+/-- `DenseMatrix::transpose(x)` on any well-formed target — fresh, same shape, transposed shape (buffer reuse), another
+    shape, or sharing its memory with `x` (the object itself / a shallow clone; the kernel then works from a temporary
+    copy): the target afterwards is exactly the fresh-target transpose (loop-for-loop model of the kernel) -/
+theorem C02.dense_transposeInto_alias {α : Type} [Zero α] (t x : Dense α) (shared : Bool) (hx : x.wf = true)
+    (ht : t.wf = true) (hs : shared = true → t.rows = x.rows ∧ t.cols = x.cols) :
+    (Dense.transposeInto t x shared).1 = x.transpose :=
+  C02L.dense_transposeInto_alias t x shared hx ht hs
+
+/-- … and the source afterwards is untouched, unless target and source share their memory and the buffer is reused
+    (square matrix): then — as documented for shallow clones — the source shows the result -/
+theorem C02.dense_transposeInto_source {α : Type} [Zero α] (t x : Dense α) (shared : Bool) (hx : x.wf = true)
+    (ht : t.wf = true) (hs : shared = true → t.rows = x.rows ∧ t.cols = x.cols) :
+    (Dense.transposeInto t x shared).2 = x ∨
+    (shared = true ∧ x.rows = x.cols ∧ (Dense.transposeInto t x shared).2 = x.transpose) :=
+  C02L.dense_transposeInto_source t x shared hx ht hs
+
+/-- Every call of a two-argument member on the object itself or on a pre-existing target of any kind that the model
+    accepts (`Mat.stepAlias`, the function `drv_c02` executes for `trs | trt k | convs | convt k f | clonet k m | copys |
+    copyt k`) yields exactly the container of the corresponding fresh-target operation (`AOp.base`, covered by
+    `C02.chain_spec`), and leaves the source as it was — except a shallow-clone target of a square dense matrix, where
+    the source shows the result as well. -/
+theorem C02.stepAlias_agrees {α : Type} [Zero α] (fill : α) (m : Mat α) (hv : m.valid = true) (a : AOp) :
+    (∀ t s, m.stepAlias fill a = .ok t s →
+        (∃ o, a.base m.fmt = some o ∧ m.step o = .ok t) ∧ (s = m ∨ (m.rows = m.cols ∧ s = t))) ∧
+    (∀ t, m.stepAlias fill a = .self t → ∃ o, a.base m.fmt = some o ∧ m.step o = .ok t) :=
+  C02L.stepAlias_agrees fill m hv a
 
 /-!
 ### Covered by the correspondence run only (no theorem here)
